@@ -171,11 +171,18 @@ def execute(scn, prefix, base, step_budget=400, strict=True):
 
         def on_acquire():
             snap["before"] = set(fc.file_futures)
+            snap["pending"] = {n for n, info in fc.file_futures.items()
+                               if hasattr(info[-1], "done") and not info[-1].done()}
 
         def on_release(et):
             after = set(fc.file_futures)
+            try:        # protected state at the release, for the mid-run tie (hit branch of get_file)
+                mid = dict(acc=sorted(str(x[-1]) for x in fc.file_access_times), mem=fc.current_memory_usage)
+            except Exception:
+                mid = None
             sched.note(removed=sorted(snap.get("before", set()) - after),
-                       exc=(et.__name__ if et is not None else None))
+                       exc=(et.__name__ if et is not None else None), mid=mid,
+                       pending=sorted(snap.get("pending", set())))
 
         fc.file_futures_lock = S.FakeLock(sched, on_acquire, on_release)
 
@@ -579,11 +586,12 @@ def _enc_op(op):
     return f"u:{_mn(op[1])}:{op[2]}:{1 if op[3] else 0}"
 
 
-def model_line(scn, ex):
-    """the `run` request replaying the real run's schedule (and eviction choices) into kd_c18"""
+def model_line(scn, ex, upto=None):
+    """the `run` request replaying the real run's schedule (and eviction choices) into kd_c18
+    (upto: only the steps up to and including trace index `upto`)"""
     progs = ([scn["setup"]] if scn.get("setup") else []) + scn["threads"]
     steps = []
-    for st in ex.trace:
+    for st in (ex.trace if upto is None else ex.trace[:upto + 1]):
         if S.is_stutter(st["label"]):
             continue
         ev = []
@@ -696,6 +704,20 @@ def core_scenarios():
         ("rewrite-resident:update-a||get-c", S1([[["update", "aa", b"xyz".hex(), 0]], [["get", "cc"]]],
                                                 max=5, files={"aa": b"AA".hex(), "bb": b"BBB".hex(), "cc": b"CCC".hex()},
                                                 setup=[["get", "aa"], ["get", "bb"]])),
+        # a second get of a file whose load is still in flight, another file completing in between,
+        # memory pressure when the pending load finishes
+        ("hit-inflight:get-f||get-f||get-g", S1([[["get", "f"]], [["get", "f"]], [["get", "g"]]], max=4,
+                                                files={"f": OLD, "g": XY}, quick_cap=3000)),
+        ("hit-inflight:get-f||get-f;get-g", S1([[["get", "f"]], [["get", "f"], ["get", "g"]]], max=4,
+                                               files={"f": OLD, "g": XY})),
+        # boundary sizes around max_memory (4): files and updates of exactly max, max-1, max+1 bytes
+        ("boundary:get-max-file||update-max;get", S1([[["get", "f"]], [["update", "f", b"wxyz".hex(), 0], ["get", "f"]]], max=4,
+                                                     files={"f": b"ABCD".hex()})),
+        ("boundary:update-max;get||get;update-max-1", S1([[["update", "f", b"wxyz".hex(), 1], ["get", "f"]],
+                                                         [["get", "f"], ["update", "f", b"abc".hex(), 0]]], max=4,
+                                                        files={"f": b"ABC".hex()}, setup=[["get", "f"]])),
+        ("boundary:get-max+1-file||update-max;get", S1([[["get", "f"]], [["update", "f", b"wxyz".hex(), 0], ["get", "f"]]], max=4,
+                                                       files={"f": b"ABCDE".hex()})),
         # exact fill: sizes chosen so that usage + size == max_memory exactly (boundary of recover_memory)
         ("exact-fill:update-a(2->3)||get-c", S1([[["update", "aa", b"xyz".hex(), 0]], [["get", "cc"]]],
                                                 max=6, files={"aa": b"AA".hex(), "bb": b"BBB".hex(), "cc": b"CCCC".hex()},
@@ -903,9 +925,36 @@ def check_execution(scn, ex, choices, drv, out):
                     d = "machine not quiescent at the end of a complete run"
                 elif f.get("safe") == "1" and fails:
                     d = "machine accepts the run as hazard-free but the oracle fails on the real code"
+            if d is None:
+                d = mid_tie(scn, ex, drv, out)
             if d is not None and len(out["mismatches"]) < 5:
                 out["mismatches"].append((case, d[:600]))
             out["hist"]["tie:" + ("agree" if d is None else "DISAGREE")] += 1
+
+
+def mid_tie(scn, ex, drv, out, limit=3):
+    """protected state right after the lock block of a get that found an entry (cache hit), compared
+    with the machine run up to that step: a hit on a finished future touches the access list, a hit
+    on a load/write still in flight must leave it alone (and never changes the byte total)"""
+    n = 0
+    for i, st in enumerate(ex.trace):
+        if st["label"] != "lock" or st["tid"].startswith("K") or not st.get("mid"):
+            continue
+        op = op_of_step(ex, scn, i)
+        if op is None or op[0] != "get" or op[1] not in (st.get("pending") or []):
+            continue
+        f = fields(drv.ask(model_line(scn, ex, upto=i)))
+        out["hist"]["tie:mid-hit-pending"] += 1
+        real_acc = ",".join(sorted(_mn(x) for x in st["mid"]["acc"]))
+        if f["_"] != "ok":
+            return f"mid-run (step {i}): machine refused the prefix"
+        if f.get("acc", "") != real_acc or f.get("mem") != str(st["mid"]["mem"]):
+            return (f"mid-run after the hit of {op} on an in-flight future (step {i}): "
+                    f"machine acc={f.get('acc', '')!r} mem={f.get('mem')} real acc={real_acc!r} mem={st['mid']['mem']}")
+        n += 1
+        if n >= limit:
+            break
+    return None
 
 
 def work(args):
